@@ -301,7 +301,8 @@ def parse_version_info(version_str: str, raw_pattern: str = "vYYYY0M.BUILD[-TAG]
         )
         raise version.PatternError(err_msg)
     else:
-        field_values = match.groupdict()
+        # parts of an optional group that was left out take no part in the match
+        field_values = {key: val for key, val in match.groupdict().items() if val is not None}
         try:
             return parse_field_values_to_vinfo(field_values)
         except (ValueError, OverflowError) as ex:
